@@ -19,8 +19,11 @@ func init() {
 			"(2) next-offset discipline: ProcessFetchPartitionOpts.Offset is written only in maybeKeepRecord (record.Offset+1 after the `record.Offset < o.Offset` filter), the KAFKA-5443 defer (only forward and only when the decoded count equals the claimed count, so a truncated batch never advances it) and the unknown-magic arm (only forward); " +
 			"(3) records are appended to FetchPartition.Records only in maybeKeepRecord, only when not aborted, with control records forced to aborted unless KeepControlRecords; every record of a batch is offered with the batch's shouldAbortBatch verdict and the abort-marker bookkeeping is reached for every record; " +
 			"(4) aborted-transaction tracking: buildAborter sorts every producer's first offsets before returning, shouldAbortBatch compares with the smallest remaining first offset and the transactional bit 0x10, trackAbortedPID pops exactly one entry (delete only when none remain) and is called at most once per batch for an abort marker (key type 0) of an aborted batch; " +
-			"(5) record conversion field map: offset = FirstOffset+OffsetDelta, timestamp = FirstTimestamp+TimestampDelta64 (the deprecated 32-bit TimestampDelta is never read) or MaxTimestamp for LogAppendTime, producer fields from the batch.",
-		NotDecided:  "field-by-field equality with a reference decoder on all inputs (value level), compression round trips (C19), the header slab sizing in recordToRecord (an inter-procedural sum invariant, exempted and listed).",
+			"(5) record conversion field map: offset = FirstOffset+OffsetDelta, timestamp = FirstTimestamp+TimestampDelta64 (the deprecated 32-bit TimestampDelta is never read) or MaxTimestamp for LogAppendTime, producer fields from the batch; " +
+			"(6) per-entry validation state (c06_round4.go): every local that the CRC/length-validating closure of ProcessFetchPartition captures and that the entry loop derives from the current entry (r, kind, length, lengthField, crcField, crcTable, crcAt) is assigned on every path of the iteration that reaches the closure call - no value of the previous entry or of before the loop reaches it - and the magic switch (on data[16]) sets CRC-32 IEEE from byte 16 for magic 0/1 and CRC-32C (a package variable built with MakeTable(Castagnoli)) from byte 21 for magic 2; " +
+			"(7) no escape of pooled memory from (*decompressor).Decompress (c06_round4.go): every success result is fresh/unrelated memory or aliases the scratch buffer only on paths where that buffer is caller-owned (a flag that is set only right after the buffer was replaced by a constructor-built one, inside a literal that runs before the shared-pool Get; the Get and every Put of the buffer are under `buffer == nil`); a slice obtained from a pooled local, appended onto it, or returned by any callee that was given such a slice counts as aliasing unless passed through slices.Clone/bytes.Clone/append onto fresh memory; " +
+			"(8) buildAborter inserts every AbortedTransactions entry (see C05 clause 2b).",
+		NotDecided:  "field-by-field equality with a reference decoder on all inputs (value level), compression round trips (C19), aliasing inside the codec libraries and inside user-supplied pools (a callee given a pooled slice is assumed to possibly return it, nothing more), pooled memory other than Decompress's scratch buffer, the header slab sizing in recordToRecord (an inter-procedural sum invariant, exempted and listed).",
 		Assumptions: []string{"64-bit int (index arithmetic does not overflow)", "function literals passed as call arguments run synchronously inside the callee", "kbin.Varint/Uvarint return n <= len(in) and |n| <= 5 (established by C17)"},
 		Run:         runC06,
 	})
@@ -30,10 +33,12 @@ func init() {
 		Technique: "who-may-write / constant-plumbing tables for the isolation level, guard-fact rules on the only record appender and the aborted-transaction tracker, must-pass-through of the abort-marker bookkeeping in the per-record loop, sort-key agreement of every binary search over kfake's aborted-transaction index",
 		Explanation: "(1) isolation plumbing: every fetchRequest literal sets isolationLevel from cfg.isolationLevel, fetchRequest.AppendTo copies it into kmsg.FetchRequest.IsolationLevel, processRespPartition builds ProcessFetchPartitionOpts.IsolationLevel from the same config field, buildListReq stores its parameter into the list request and its caller passes cfg.isolationLevel; " +
 			"(2) buildAborter is invoked exactly under IsolationLevel.level == 1 and sorts each producer's aborted first offsets; " +
+			"(2b) aborter completeness (c05_round4.go): the loop over the response's whole AbortedTransactions list inserts every entry under its producer id on every path of the iteration (no continue/guard/filter - an entry whose FirstOffset is below the fetch offset is the one a fetch resuming inside that transaction needs), the map is written only by that insertion (no delete, trim or replacement), is created once, is returned only after the loop (nil only for an empty list), and the caller's aborter variable is assigned only from buildAborter(response parameter); " +
 			"(3) the only append to FetchPartition.Records (maybeKeepRecord) is dominated by !abort, with abort forced for control records unless KeepControlRecords, and processRecordBatch passes shouldAbortBatch(batch) for every record; " +
 			"(4) trackAbortedPID pops exactly one aborted transaction per abort marker, is reached only for control records with key type 0 of an aborted batch at most once per batch, and that bookkeeping is on every path of the per-record loop (a kept record cannot skip it); " +
-			"(5) broker half in kfake: every binary search of a partition's aborted-transaction index compares the index's sort key lastOffset (>= start), and handleFetch reports each entry from there on unless it starts at or after one past the last returned offset - i.e. every aborted transaction overlapping the returned range is in AbortedTransactions (C32 checks the last-stable-offset cut of the same handler).",
-		NotDecided: "eventual delivery of committed data across fetches; the history-level behaviour of kfake's transaction state.",
+			"(5) broker half in kfake: every binary search of a partition's aborted-transaction index compares the index's sort key lastOffset (>= start), and handleFetch reports each entry from there on unless it starts at or after one past the last returned offset - i.e. every aborted transaction overlapping the returned range is in AbortedTransactions (C32 checks the last-stable-offset cut of the same handler); " +
+			"(6) kfake transaction outcome (c05_round4.go): pidinfo.lastWasCommit, which EndTxn retry detection answers from, is stored with endTx's commit parameter on every path of endTx (through resetTx, which stores its forwarded parameter on every path and nothing else), so all callers - EndTxn, the transaction-timeout abort, the InitProducerID fence abort, log replay - record the outcome; any other writer must be a restore from a persisted log entry (*entry.Commit), the EndTxn request's own Commit flag, or a constant equal to the request's Commit on that path; its address is taken only into a log entry.",
+		NotDecided: "eventual delivery of committed data across fetches; the history-level behaviour of kfake's transaction state (clause 6 decides only where the outcome flag is written, not the retry-detection predicate that reads it, and not that pids.log replay of a `timeout` entry restores it).",
 		Run:        runC05,
 	})
 }
@@ -65,7 +70,10 @@ func runC06(c *Ctx) {
 	cursorAdvanceRule(c, m)
 	fetchKeepRules(c, m)
 	abortRules(c, m)
+	c05aborterComplete(c, m)
 	c06recordMap(c, m)
+	c06crcPerMagic(c, m)
+	c06pooledEscape(c, m)
 }
 
 func runC05(c *Ctx) {
@@ -77,7 +85,9 @@ func runC05(c *Ctx) {
 	fetchKeepRules(c, m)
 	abortRules(c, m)
 	cursorAdvanceRule(c, m)
+	c05aborterComplete(c, m)
 	c05kfakeAbortedIndex(c)
+	c05kfakeOutcome(c)
 }
 
 // c05kfakeAbortedIndex: the broker half that the client's aborter depends on.
